@@ -1,5 +1,5 @@
-(* python-brace: foreign exceptions.  With str.isdigit() in add_argument the model raises ValueError on {²}
-   (defect D3); with any digit predicate that implies isdecimal it raises only its own errors. *)
+(* python-brace: the parser raises only its own errors (add_argument tests name.isdecimal() since the fix of D3,
+   so int() only ever sees non-empty decimal text). *)
 From Coq Require Import List NArith ZArith Bool Lia.
 From I18n Require Import Lib.Outcome Model.FmtPyBrace.
 Import ListNotations.
@@ -15,9 +15,6 @@ Record ucd_ok : Prop := {
   ok_ascii : forall c, is_ascii_digit c = true -> u_isdecimal U c = true;
   ok_d : forall c, u_d U c = true -> u_isdecimal U c = true;
   ok_val : forall c, u_isdecimal U c = true -> u_decval U c <> None }.
-
-(* the guard that excludes D3: the digit test of add_argument accepts decimal characters only *)
-Definition digits_are_decimal : Prop := forall c, u_isdigit U c = true -> u_isdecimal U c = true.
 
 Hypothesis Hok : ucd_ok.
 
@@ -168,18 +165,16 @@ Lemma forallb_impl {A} (p q : A -> bool) l : (forall x, p x = true -> q x = true
 Proof. intros H. induction l as [|x r IH]; cbn [forallb]; [auto|]. rewrite !andb_true_iff. intros [H1 H2]. auto. Qed.
 
 (* ---------------------------------------------------------------- add_argument, Field.__init__ *)
-Hypothesis Hguard : digits_are_decimal.
-
 Lemma add_argument_no_crash st name c : add_argument U M st name <> Crash c.
 Proof.
   unfold add_argument. destruct name as [nm|].
   - destruct nm as [|x r]; [discriminate|].
-    destruct (forallb (u_isdigit U) (x :: r)) eqn:Ed; [|discriminate].
+    destruct (forallb (u_isdecimal U) (x :: r)) eqn:Ed; [|discriminate].
     pose proof (@py_int_no_crash add_exc (x :: r)) as Hp.
     destruct (py_int U (x :: r)) as [n| |c'] eqn:Ep; cbn [obind].
     + destruct (n >? M)%Z; [discriminate|]. destruct (b_next st) as [i|]; [destruct (i =? 0)%Z|]; discriminate.
     + discriminate.
-    + exfalso. apply (Hp c'); [discriminate|eapply forallb_impl; [exact Hguard|exact Ed]|reflexivity].
+    + exfalso. apply (Hp c'); [discriminate|exact Ed|reflexivity].
   - destruct (b_next st) as [n|]; [destruct (n >? M)%Z|]; discriminate.
 Qed.
 
